@@ -51,6 +51,11 @@ type World struct {
 	autoO2     string
 	httpReplies []httpReply
 	ginParams  map[string]*Term
+	ignoreGo   bool
+	ginBound   []ginBound
+	ginSent    map[string]*Term
+	schedFull  int
+	goSkipped  int
 	lenOf      map[int]*Term
 	ginWildcards map[string]bool
 	nbind      int
